@@ -179,7 +179,7 @@ Proof.
     destruct (o_status c); try apply sext_refl.
     destruct (o_rx c); cbn [negb]; [|repeat strip].
     destruct (nth_error (o_items c) (o_taken c)) as [r|].
-    + destruct (r_kind r); repeat strip.
+    + destruct (r_kind r); try destruct (o_kind c) as [|[|]| |]; repeat strip.
     + destruct (o_chan c); cbn [negb]; [|repeat strip].
       destruct (o_tmo c) as [d|]; [|repeat strip]. match goal with |- context [if ?b then _ else _] => destruct b end; [|repeat strip].
       destruct (is_running s); repeat strip.
@@ -248,7 +248,7 @@ Proof.
   (* StreamNext *)
   1, 2: destruct (getop s o) as [c|]; [|now left]; destruct (o_status c); try (now left);
         destruct (o_rx c); cbn [negb]; [|now left]; destruct (nth_error (o_items c) (o_taken c)) as [r|];
-        [ destruct (r_kind r); now left
+        [ destruct (r_kind r); try destruct (o_kind c) as [|[|]| |]; now left
         | destruct (o_chan c); cbn [negb]; [|now left]; destruct (o_tmo c) as [d|]; [|now left];
           match goal with |- context [if ?b then _ else _] => destruct b end; [destruct (is_running s)|]; now left ].
   (* StreamFinish *)
